@@ -316,7 +316,7 @@ def make_simulator(vlog, sched):
             vlog.EVENTS.append(["sched", t])
             perm = sched[t % len(sched)]
             byidx = {self.objects.index(a) + 1: a for a in self.agents}
-            return [byidx[i] for i in perm if i in byidx]
+            return [byidx[i] for i in perm if i in byidx] + [byidx[i] for i in sorted(byidx) if i > len(perm)]
 
         def executeActions(self, allActions):
             vlog.EVENTS.append(
